@@ -260,13 +260,16 @@ def sh(cmd, cwd=None, timeout=3600):
 
 
 def build(targets):
-    """lake build, serialised with a lock so that checks may run concurrently."""
+    """regenerate the source-derived tables and lake build, as ONE step serialised with a lock so that checks may
+    run concurrently (also against different REPO trees during self-tests)."""
     import fcntl
+    from harness import extract
     os.makedirs(os.path.join(LEAN_DIR, '.lake'), exist_ok=True)
     with open(os.path.join(LEAN_DIR, '.lake', 'verif.lock'), 'w') as lk:
         fcntl.flock(lk, fcntl.LOCK_EX)
+        changed = extract.regenerate()
         rc, out = sh(['lake', 'build'] + list(targets), cwd=LEAN_DIR)
-    return rc, out
+    return rc, out, changed
 
 
 FORBIDDEN = ['sorry', 'admit', 'native_decide', 'bv_decide', 'implemented_by', 'unsafe ', 'maxHeartbeats 0']
@@ -380,9 +383,7 @@ def run_check(prop, tier, seed, replay=None, jobs=None):
     machinery = []
 
     # 1-2. regenerate + build
-    from harness import extract
-    gen_changed = extract.regenerate()
-    rc, out = build(['CG', 'cgdriver'])
+    rc, out, gen_changed = build(['CG', 'cgdriver'])
     build_ok = rc == 0
     build_log = out[-3000:]
 
@@ -421,7 +422,8 @@ def run_check(prop, tier, seed, replay=None, jobs=None):
 
     if build_ok and not os.path.exists(DRIVER):
         machinery.append('driver binary missing after build')
-    if build_ok and os.path.exists(DRIVER):
+    # a broken proof obligation does not stop the search for a failing input: the driver target is built separately
+    if os.path.exists(DRIVER):
         if replay:
             cases = [json.load(open(replay))['case']]
         else:
